@@ -9,7 +9,7 @@ from jmon import actions as A
 from jmon import envs as E
 from jmon.common import Report, decode, digest_decoded, key_for, shard_rng, tree_diff
 from jmon.props._util import HEAVY
-from jmon.props.c13 import pick_cfgs
+from jmon.props.c13 import INNER, pick_cfgs, wrap_inner
 
 RULE = (
     "differential monitor over long batched runs: (a) VmapWrapper.reset/step on a batch vs the unwrapped environment per batch "
@@ -33,6 +33,8 @@ def shards(tier: str, seed: int) -> List[Dict[str, Any]]:
         for ci, c in enumerate(cfgs[: (1 if tier == "quick" else 2)]):
             for b in bsizes:
                 out.append({"id": f"{e}|{c['id']}|b{b}", "env": e, "cfg": c, "batch": b, "weight": HEAVY.get(e, 1.0) * (1 + b / 8)})
+    for e_, cid_, kind_ in INNER[tier][: (3 if tier == "quick" else 99)]:
+        out.append({"id": f"{e_}|{cid_}|inner-{kind_}|b3", "env": e_, "cfg": E.cfg_by_id(e_, cid_), "batch": 3, "inner": kind_, "weight": HEAVY.get(e_, 1.0)})
     # large batches (32..256, the sizes training runs use): stack equivalence only, random actions on environments whose
     # episodes end at random times, so that arbitrary subsets of the batch terminate on a step
     big = [["Minesweeper", "r3c7m5"], ["Snake", "r3c5L7"], ["Knapsack", "n10b2sparse"], ["TSP", "n5sparse"]]
@@ -166,7 +168,7 @@ def run_shard(shard: Dict[str, Any], rep: Report) -> None:
     name, cfg, b = shard["env"], shard["cfg"], shard["batch"]
     cid = cfg["id"]
     rng = shard_rng(seed, sid)
-    env = E.build(name, cfg)
+    env = wrap_inner(E.build(name, cfg), shard.get("inner"))
     spec = env.action_spec
     n_reset = jax.jit(env.reset)
     n_step = jax.jit(env.step)
